@@ -120,6 +120,8 @@ package pointindex
 //@   prelude geom
 //@   requires lineOK(intLine) && extentOK(intExtent)
 //@   loop ax unroll 2
+//@   cases intLine[1][0] > intLine[0][0] | intLine[1][0] == intLine[0][0] | intLine[1][0] < intLine[0][0]
+//@   cases intLine[1][1] > intLine[0][1] | intLine[1][1] == intLine[0][1] | intLine[1][1] < intLine[0][1]
 //@   witness w = (lo.num / lo.den + hi.num / hi.den) / 2
 //@   witness w = ite(intExtent[0] <= intLine[0][0] && intLine[0][0] < intExtent[2] && intExtent[1] <= intLine[0][1] && intLine[0][1] < intExtent[3], 0, 1)
 //@   ensures[C02] result ==> meetsAt(intLine, intExtent, w)
